@@ -56,6 +56,15 @@ class Ctx(object):
         self.nowrap = set()
         self.facts = facts or {}
         for t, v in self.facts.items():
+            # a recorded comparison b <= a makes a - b exact
+            if t.op == "ult" and v.val == 0:
+                self.nowrap.add(("sub", t.args[0], t.args[1]))
+            elif t.op == "ult" and v.val == 1:
+                self.nowrap.add(("sub", t.args[1], t.args[0]))
+            elif t.op == "ule" and v.val == 1:
+                self.nowrap.add(("sub", t.args[1], t.args[0]))
+            elif t.op == "ule" and v.val == 0:
+                self.nowrap.add(("sub", t.args[0], t.args[1]))
             if t.op in ("uaddo", "usubo", "umulo") and v.val == 0:
                 self.nowrap.add(({"uaddo": "add", "usubo": "sub", "umulo": "mul"}[t.op], t.args[0], t.args[1]))
                 if t.op in ("uaddo", "umulo"):
